@@ -1,6 +1,6 @@
 """C18: stream adapters deliver exactly the bytes written, in order (level: other)."""
 import re
-from core import norm, L_call, L_variant, arms, assigns_to_return, closure_arg_of, sig, const_of, CallSite
+from core import norm, L_call, L_variant, arms, assigns_to_return, closure_arg_of, sig, const_of, CallSite, L_poll, L_result
 from mir import op_place
 import fwd
 import c08
@@ -21,14 +21,15 @@ META = {
     "level_text": "static necessary conditions (sibling / forwarding agreement of every adapter method, provenance of the byte counts, unsafe-block inventory)",
 }
 
-UNSAFE_EXPECTED = {
-    "client::conn::transport::tcp::connect": 1,
-    "<bridge::io::TokioIo as hyper::rt::Read>::poll_read": 2,
-    "<bridge::io::TokioIo as tokio::io::AsyncRead>::poll_read": 2,
-    "rewind::remaining": 1,
-    "rewind::put_slice": 1,
-    "<server::conn::auto::ReadVersion as futures_core::Future>::poll": 1,
+UNSAFE_OWNERS = {
+    "client::conn::transport::tcp::TcpConnectionAttempt::connect",  # socket2 -> std -> tokio conversion of the connecting socket (fn connect)
+    "client::conn::transport::tcp::connect",
+    "<bridge::io::TokioIo as hyper::rt::Read>::poll_read",
+    "<bridge::io::TokioIo as tokio::io::AsyncRead>::poll_read",
+    "<rewind::Rewind as hyper::rt::Read>::poll_read",               # remaining() / put_slice() helpers over ReadBufCursor
+    "<server::conn::auto::ReadVersion as futures_core::Future>::poll",
 }
+
 
 
 def E_FWD_all(ctx, facts):
@@ -54,8 +55,55 @@ def _len_of(f, operand, callee_pat):
     return inner
 
 
+def _outcomes_forwarded(ctx, f, label, inner):
+    """Every outcome of the inner read other than Ready(Ok) is what the adapter returns: from the inner read's Pending edge
+    only Pending / the inner result itself can be returned; from its Err edge only the inner result or Ready(Err(e)) carrying
+    that error; a fresh Ready(Ok(())) is returned only on the Ok edge.  (`match .. other => return other`, `ready!(..)?` and
+    explicit arms are the same thing here.)"""
+    ib = {c.bb for c in inner}
+    pend = f.edges_where(L_poll(f, False, ib))
+    errs = f.edges_where(L_result(f, False, ib))
+    oks = f.edges_where(L_result(f, True, ib))
+    ctx.floor("%s|inner-outcome-edges" % label, min(len(pend) + len(errs), len(oks)), 1, "edges on the outcome of the inner read")
+
+    def kind_of(k, b, x):
+        if k == "call":
+            return "inner" if b in ib else "call"
+        r = x["r"]
+        if r["k"] == "use" and op_place(r["o"]) is not None:
+            rr = f.roots(r["o"], through_calls=False)
+            return "inner" if rr and all(q.kind == "call" and q.site.bb in ib for q in rr if q.kind == "call") and any(q.kind == "call" for q in rr) else "other"
+        if r["k"] == "agg" and r.get("v") == "Pending":
+            return "Pending"
+        if r["k"] == "agg" and r.get("v") == "Ready":
+            d = f.unique_def(op_place(r["ops"][0])["l"]) if r.get("ops") and op_place(r["ops"][0]) else None
+            if d and d[0] == "stmt" and d[3]["r"]["k"] == "agg":
+                v = d[3]["r"].get("v")
+                if v == "Err":
+                    er = f.roots(d[3]["r"]["ops"][0])
+                    return "Ready(Err(inner))" if any(q.kind == "call" and q.site.bb in ib for q in er) else "Ready(Err(?))"
+                if v == "Ok":
+                    return "Ready(Ok)"
+            return "Ready(?)"
+        return "other"
+
+    for name, edges, allowed in (("Pending", pend, {"inner", "Pending"}), ("Err", errs, {"inner", "Ready(Err(inner))"})):
+        for (x, y) in edges:
+            kinds = {kind_of(k, b, v) for (k, b, v) in assigns_to_return(f, f.reach([y]) - ({e[1] for e in oks} if False else set()))}
+            # the Ok continuation is not reachable from a Pending / Err edge except through shared return blocks: ignore
+            # results that are only assigned on the Ok edge
+            ok_only = {kind_of(k, b, v) for (k, b, v) in assigns_to_return(f, f.live) if all(f.guarded(b, L_result(f, True, ib))[0] for _ in [0])}
+            bad = sorted(kinds - allowed - ok_only)
+            ctx.check(not bad, "%s|%s-forwarded" % (label, name), "a %s outcome of the inner read is returned as it is" % name,
+                      "after a %s outcome of the inner read the adapter can return %s" % (name, bad), f.where(x))
+    fresh = [(k, b, v) for (k, b, v) in assigns_to_return(f, f.live) if kind_of(k, b, v) == "Ready(Ok)"]
+    for (k, b, v) in fresh:
+        g, w = f.guarded(b, L_result(f, True, ib))
+        ctx.check(g, "%s|ok-only-on-ok" % label, "Ready(Ok(())) is produced only on the inner read's Ready(Ok) edge", "Ready(Ok(())) can be produced on another outcome", f.where(b), f.path_desc(w))
+
+
 def C18_1(ctx, facts):
-    f = facts.unit(facts.method("bridge::io::TokioIo", "hyper::rt::Read", "poll_read"))
+    f = facts.unit(facts.method("bridge::io::TokioIo", "hyper::rt::Read", "poll_read"), expand=True)
     ctx.touched(f)
     inner = [c for c in f.calls() if norm(c.decl or c.name).endswith("AsyncRead::poll_read")]
     adv = [c for c in f.calls() if c.matches(r"ReadBufCursor.*::advance$")]
@@ -68,7 +116,7 @@ def C18_1(ctx, facts):
         ctx.check(any(r.kind == "call" and r.site.matches(r"ReadBufCursor.*::as_mut$") for r in rr) and any(r.kind == "arg" and r.desc == "buf" for r in rr), "TokioIo Read|tbuf-over-cursor",
                   "the tokio buffer is built over the caller's cursor (buf.as_mut())", "tbuf roots %s" % sorted(map(repr, sig(rr))), c.where())
     ib = {c.bb for c in inner}
-    ok_edge = lambda lab: lab.kind == "variant" and lab.variants == {"Ok"} and f.call_defining(lab.place["l"]) is not None and f.call_defining(lab.place["l"]).bb in ib
+    ok_edge = L_result(f, True, ib)
     for c in inner:
         rb = f.roots(c.args[2], through_calls=False)
         ctx.check(any(r.kind == "call" and r.site.bb in {u.bb for u in un} for r in rb), "TokioIo Read|inner-gets-tbuf", "the inner read fills that buffer", "inner read buffer roots %s" % sorted(map(repr, rb)), c.where())
@@ -83,19 +131,11 @@ def C18_1(ctx, facts):
         rc = f.roots(c.args[0], through_calls=False)
         ctx.check(any(r.kind == "arg" and r.desc == "buf" for r in rc), "TokioIo Read|advance-caller-cursor", "it is the caller's cursor that is advanced", "advance target roots %s" % sorted(map(repr, rc)), c.where())
     # other outcomes returned unchanged
-    rets = assigns_to_return(f, f.live)
-    passthru = [x for (k, b, x) in rets if k == "stmt" and x["r"]["k"] == "use" and op_place(x["r"]["o"]) is not None and
-                any(r.kind == "call" and r.site.bb in ib for r in f.roots(x["r"]["o"], through_calls=False))]
-    passthru += [x for (k, b, x) in rets if k == "call" and b in ib]
-    ctx.check(len(passthru) >= 1, "TokioIo Read|other-outcomes-unchanged", "Pending / Err of the inner read are returned unchanged", "non-Ok outcomes are not passed through")
-    fresh = [x for (k, b, x) in rets if k == "stmt" and x["r"].get("v") == "Ready"]
-    for x in fresh:
-        pass
-    ctx.check(len(rets) == 2, "TokioIo Read|two-returns", "exactly two return shapes: pass-through and Ready(Ok(()))", "%d return sites" % len(rets))
+    _outcomes_forwarded(ctx, f, "TokioIo Read", inner)
 
 
 def C18_2(ctx, facts):
-    f = facts.unit(facts.method("bridge::io::TokioIo", "tokio::io::AsyncRead", "poll_read"))
+    f = facts.unit(facts.method("bridge::io::TokioIo", "tokio::io::AsyncRead", "poll_read"), expand=True)
     ctx.touched(f)
     inner = [c for c in f.calls() if norm(c.decl or c.name).endswith("rt::Read::poll_read") or c.matches(r"hyper::rt::(io::)?Read.*::poll_read$")]
     sf = [c for c in f.calls() if c.matches(r"tokio::io::ReadBuf.*::set_filled$")]
@@ -110,7 +150,7 @@ def C18_2(ctx, facts):
         rr = f.roots(c.args[0])
         ctx.check(any(r.kind == "call" and r.site.matches(r"tokio::io::ReadBuf.*::unfilled_mut$") for r in rr) and any(r.kind == "arg" and r.desc == "tbuf" for r in rr),
                   "TokioIo AsyncRead|sub-buffer-over-unfilled", "the hyper buffer covers exactly tbuf.unfilled_mut()", "sub-buffer roots %s" % sorted(map(repr, sig(rr))), c.where())
-    ok_edge = lambda lab: lab.kind == "variant" and lab.variants == {"Ok"} and f.call_defining(lab.place["l"]) is not None and f.call_defining(lab.place["l"]).bb in ib
+    ok_edge = L_result(f, True, ib)
     for c in sf + ai:
         g, w = f.guarded(c.bb, ok_edge)
         ctx.check(g, "TokioIo AsyncRead|%s-on-ok" % norm(c.name).split("::")[-1], "bookkeeping only on Ready(Ok(()))", "bookkeeping on another outcome", c.where(), f.path_desc(w))
@@ -159,8 +199,7 @@ def C18_2(ctx, facts):
     for c in inner:
         rb = f.roots(c.args[2], through_calls=True)
         ctx.check(any(r.kind == "call" and r.site.bb in {u.bb for u in un} for r in rb), "TokioIo AsyncRead|inner-gets-sub", "the inner read fills the sub-buffer", "inner read buffer roots %s" % sorted(map(repr, sig(rb))), c.where())
-    rets = assigns_to_return(f, f.live)
-    ctx.check(len(rets) == 2, "TokioIo AsyncRead|two-returns", "exactly two return shapes: pass-through and Ready(Ok(()))", "%d return sites" % len(rets))
+    _outcomes_forwarded(ctx, f, "TokioIo AsyncRead", inner)
 
 
 def _copy_src(f, operand):
@@ -215,18 +254,22 @@ def C18_3(ctx, facts):
 
 
 def C18_5(ctx, facts):
+    """Hand-written unsafe stays where it was reviewed.  A block is filed under its owner (panics.owner_name: the named
+    function, or - for a private single-caller helper - its caller), so renaming / extracting / merging helpers or merging
+    two blocks into one changes nothing; an unsafe block under a *new* owner is reported."""
+    import panics
     got = {}
     for u in facts.data.get("unsafe_blocks", []):
-        if u["count"]:
-            got[norm(u["fn"])] = u["count"]
-    expected = dict(UNSAFE_EXPECTED)
-    if ctx.cur_config in ("client-only", "server-only"):
-        # declared compile-outs: server-only has no tcp client connect, client-only has no rewind / auto server
-        expected = {k: v for k, v in expected.items() if facts.by_norm.get(k)}
-    ok = got == expected
-    ctx.check(ok, "unsafe-blocks|inventory", "hand-written unsafe blocks: exactly the eight reviewed blocks in six functions",
-              "unsafe inventory changed: %s (expected %s)" % ({k: v for k, v in got.items() if expected.get(k) != v}, {k: v for k, v in expected.items() if got.get(k) != v}))
-    ctx.floor("unsafe-blocks|count", sum(got.values()), sum(expected.values()), "unsafe blocks")
+        if not u["count"]:
+            continue
+        cands = facts.by_norm.get(norm(u["fn"])) or []
+        owner = panics.owner_name(cands[0], use_atoms=False) if len(cands) == 1 else norm(u["fn"])
+        got[owner] = got.get(owner, 0) + u["count"]
+    expected = set(UNSAFE_OWNERS)
+    new = sorted(set(got) - expected)
+    ctx.check(not new, "unsafe-blocks|inventory", "hand-written unsafe blocks sit only in the reviewed functions (%s)" % sorted(got),
+              "unsafe code in a function that was not reviewed: %s" % new)
+    ctx.floor("unsafe-blocks|count", sum(got.values()), 1, "unsafe blocks")
 
 
 RULES = [
